@@ -1,6 +1,7 @@
 (* C11 -- multi-path extraction agrees with single-path get. Statements only. *)
 From Coq Require Import List Arith.
 From SonicV Require Import Model.Many.
+From SonicV Require Spec.Ref Model.MergeSpec Model.ManyComplete Model.ManyBuild.
 Import ListNotations.
 
 (* every slot get_many fills holds exactly what single-path lookup finds for that slot's path
@@ -9,3 +10,41 @@ Theorem get_many_slots_sound : forall (key : Type) (keq : forall a b : key, {a =
   t v out remain out' rem', dupfree key v -> rec key keq fuel t v out remain = Some (out', rem') ->
   sound key keq (slots key t) v out out'.
 Proof. intros key keq fuel. exact (proj1 (get_many_sound key keq fuel)). Qed.
+
+(* completeness of the search: for a tree with distinct sibling keys (every subtree holding a slot) whose
+   paths all resolve, and a counter at least the number of slots, the search succeeds, decreases the
+   counter by exactly the number of slots, fills every slot and un-fills none *)
+Theorem get_many_search_complete : forall (key : Type) (keq : forall a b : key, {a = b} + {a <> b}) t,
+  ManyComplete.wf key t -> forall v out remain, dupfree key v -> ManyComplete.resolves key keq t v -> ManyComplete.need key t <= remain ->
+  exists fuel out', rec key keq fuel t v out remain = Some (out', remain - ManyComplete.need key t) /\
+    ManyComplete.keeps key out out' /\ ManyComplete.filled key (slots key t) out'.
+Proof. exact ManyComplete.rec_complete. Qed.
+
+(* PointerTree::add_path: the tree built from a list of paths has exactly one slot per path, slot i for the
+   i-th path (repeated paths included), and distinct sibling keys *)
+Theorem pointer_tree_slots : forall (key : Type) (keq : forall a b : key, {a = b} + {a <> b}) paths,
+  Permutation.Permutation (slots key (ManyBuild.build key keq paths)) (combine (seq 0 (length paths)) paths) /\
+  ManyBuild.wf_trie key (ManyBuild.build key keq paths).
+Proof. exact ManyBuild.build_slots. Qed.
+
+(* the whole of C11's first sentence on the model: all paths resolve => the search over the built tree
+   succeeds, uses up the counter exactly, and slot i holds what single-path lookup finds for path i *)
+Theorem get_many_agrees_with_get : forall (key : Type) (keq : forall a b : key, {a = b} + {a <> b}) (paths : list (list key)) v,
+  dupfree key v -> (forall p, In p paths -> lookup key keq v p <> None) ->
+  exists fuel out', rec key keq fuel (ManyBuild.build key keq paths) v (fun _ => None) (length paths) = Some (out', 0) /\
+    forall i p, nth_error paths i = Some p -> out' i = lookup key keq v p.
+Proof. exact ManyBuild.get_many_model_correct. Qed.
+
+(* get_by_schema: the specification (Spec/Ref.v merge) keeps exactly the schema's keys in the schema's
+   order; an absent key keeps its default, a present key holds the document's value (merged recursively
+   under a non-empty object schema); any other schema or document kind yields the document's value *)
+Theorem schema_keys_are_kept : forall f sm sms dms ms,
+  Ref.merge (S f) (Ref.JObj (sm :: sms)) (Ref.JObj dms) = Ref.JObj ms -> map MergeSpec.mkey ms = map MergeSpec.mkey (sm :: sms).
+Proof. exact MergeSpec.merged_keys_are_schema_keys. Qed.
+Theorem schema_member_semantics : forall f sm sms dms k a b sv, In (k, a, b, sv) (sm :: sms) ->
+  In (match Ref.assoc_first dms k with Some (_, _, dv) => (k, a, b, Ref.merge f sv dv) | None => (k, a, b, sv) end)
+     (match Ref.merge (S f) (Ref.JObj (sm :: sms)) (Ref.JObj dms) with Ref.JObj ms => ms | _ => [] end).
+Proof. exact MergeSpec.merged_member. Qed.
+Theorem schema_of_other_kind_is_replaced : forall f sch doc,
+  (match sch with Ref.JObj (_ :: _) => False | _ => True end) -> Ref.merge f sch doc = doc.
+Proof. exact MergeSpec.merge_non_object_schema. Qed.
